@@ -186,6 +186,9 @@ class LeanSide:
         self.theorems: list[str] = []
         self.axioms: dict[str, list[str]] = {}
         self.problems: list[str] = []
+        self.tie_theorems: list[str] = []
+        self.translation_notes: list[str] = []
+        self.translated: list[str] = []
 
     def _lake(self, *targets, timeout=3000):
         (LEAN / ".lake").mkdir(exist_ok=True)
@@ -215,11 +218,25 @@ class LeanSide:
         """names of the theorems stated in ArimProofs/<pid>.lean (namespace Arim.<pid>)"""
         txt = strip_lean_comments(self.props_file(pid).read_text())
         names = re.findall(r"^\s*theorem\s+([^\s:({\[]+)", txt, re.M)
-        return [f"Arim.{pid}.{n}" for n in names]
+        out = [f"Arim.{pid}.{n}" for n in names]
+        # tie theorems: generated translation of the source = hand-written model (ArimProofs/Tie/<pid>.lean)
+        tie = LEAN / "ArimProofs" / "Tie" / f"{pid}.lean"
+        if tie.exists():
+            names = re.findall(r"^\s*theorem\s+([^\s:({\[]+)", strip_lean_comments(tie.read_text()), re.M)
+            self.tie_theorems = [f"Arim.Tie.{pid}.{n}" for n in names]
+            out += self.tie_theorems
+        return out
 
     def build_and_audit(self, pid, pre_build=None):
         """Build ArimProofs.<pid>, then ask Lean for the axioms of every theorem of the file."""
         self.theorems = self.parse_theorems(pid)
+        # the model of the translated functions is regenerated from /repo/src on every run
+        import srctie
+        ok, notes = srctie.generate(pid)
+        self.translation_notes = notes
+        self.translated = [sp.name for sp in srctie.srcspecs.SPECS.get(pid, [])]
+        if not ok:
+            self.problems.append("py2lean: " + "; ".join(notes)[:400])
         if pre_build:
             pre_build()
         rc, log = self._lake(f"ArimProofs.{pid}")
@@ -449,6 +466,7 @@ TRUSTED_BASE = [
     "Lean 4.33 kernel (axioms allowed: propext, Classical.choice, Quot.sound; audited by #print axioms on every run)",
     "reading of the property as the theorem statements in lean/ArimProofs/<id>.lean",
     "hand-written executable model lean/ArimModel/*.lean, tied to /repo/src by the correspondence run of this check (differential testing, bounded by its generators)",
+    "translator harness/py2lean.py + harness/srcspecs.py (where a property has ArimProofs/Tie/<id>.lean): Python subset -> Lean, exact arithmetic reading of the numeric code; the tie theorems prove generated = model for all inputs",
     "Lean compiler/runtime executing the model (Float = IEEE double, libm)",
     "Python harness, generators and oracles under /verif/harness",
     "external numerical routines (numpy ufuncs, FFT, BLAS/einsum, scipy.special, numba code generation) modelled as parameters",
@@ -526,6 +544,11 @@ def finish(ctx: Ctx, extra_cov=None, search=None):
         "correspondence_disagreements": len(ctx.disagreements),
         "known_findings_hit": [k["id"] for k in ctx.known_hits],
         "lean_problems": lean.problems,
+        "source_translation": {
+            "functions_translated_from_repo_on_this_run": sorted(set(lean.translated)),
+            "tie_theorems": {t: lean.axioms.get(t) for t in lean.tie_theorems},
+            "notes": lean.translation_notes,
+        },
         "notes": ctx.notes,
     }
     if extra_cov:
